@@ -86,9 +86,16 @@ fn main() {
             };
             let n = ctx.count(500_000, 16_000_000);
             ctx.run_batch(&sc, n);
+            // chain level: the engine's own energy accounting (InterpreterEnergy) through v1::invoke_receive
+            let vs = VScenario {
+                name:  "chain-energy",
+                focus: v1sim::VFocus::Energy,
+            };
+            let n = ctx.count(150_000, 5_000_000);
+            ctx.run_batch(&vs, n);
             EngineInfo {
                 rule: "generated structured Wasm programs compiled with injected metering (cost V0/V1, validation V0/V1), including endless zero-cost loops that only out-of-energy can end; the simulated host is the energy authority and the injected fault is energy exhaustion exactly at, one below and above chosen charge points; non-trivial = at least one energy cut or suspension fired, distinct by event-log fingerprint".into(),
-                explanation: "C02 (restricted): identical executions charge identically (also interrupted and from the stored artifact); budgets T, T+1, T+d change only the remainder; a budget one below a charge point ends in out-of-energy with exactly the reference log's prefix (nothing after the charge happened); interpreter steps between positive charges stay below code_size*(depth+3)+64 (watchdog through hook H3), i.e. execution is bounded linearly by the budget; memory length seen by the host never exceeds what was announced".into(),
+                explanation: "C02 (restricted): identical executions charge identically (also interrupted and from the stored artifact); budgets T, T+1, T+d change only the remainder; a budget one below a charge point ends in out-of-energy with exactly the reference log's prefix (nothing after the charge happened); interpreter steps between positive charges stay below code_size*(depth+3)+64 (watchdog through hook H3), i.e. execution is bounded linearly by the budget; memory length seen by the host never exceeds what was announced; chain level (second batch, script contracts through v1::invoke_receive/resume_receive with the engine's own InterpreterEnergy): remaining energy = budget - charges for budgets used and used+17, and every smaller budget ends in out-of-energy".into(),
                 time_unit: "interpreter steps (dispatched instructions)",
                 state_measure: "not used by this engine (0)",
                 fault_kinds: &["energy_cut_at_charge_point", "energy_exhausted", "suspend_resume", "reentry_while_suspended"],
@@ -106,7 +113,7 @@ fn main() {
                 name:  "chain-host",
                 focus: v1sim::VFocus::Host,
             };
-            let n = ctx.count(300_000, 10_000_000);
+            let n = ctx.count(150_000, 6_000_000);
             ctx.run_batch(&vs, n);
             EngineInfo {
                 rule: "generated script contracts (straight-line sequences of v1 host calls with valid and hostile pointer / length / offset / handle arguments, re-entrant calls of the same instance that modify, only read, reject or trap, transfers, calls and queries answered by the chain stub as scripted, parameter sets P4-P7, initial state in memory or lazily loaded from the simulated disk) executed through v1::invoke_receive / resume_receive; energy exhaustion injected at seeded fractions of the energy the transaction needs; non-trivial = an interrupt, re-entry, rollback or energy cut happened, distinct by event-log fingerprint".into(),
